@@ -114,10 +114,29 @@ func (mt *mergeTool) merge(ctx *MergeContext) {
 			return
 		}
 		NewHotFileManager().AddAll(mergedFiles.Files())
+		mt.mts.updateSequencerAfterMerge(ctx.mst, mergedFiles.Files())
 		mt.mts.deleteUnorderedFiles(ctx.mst, unordered.Files())
 		mt.stat.Push()
 		success = true
 	}()
+}
+
+// updateSequencerAfterMerge raises the per-series last-flush times to what the merged
+// ordered files hold.  Out-of-order files can carry points newer than every ordered
+// file (a flush that ran while the sequencer was free or loading writes everything
+// out of order); once merged those times live in an ordered file, and a sequencer
+// reload that listed the files before the merge replaced them would otherwise end
+// "loaded" with older times: the next flush then writes an ordered file that overlaps.
+func (m *MmsTables) updateSequencerAfterMerge(mst string, files []TSSPFile) {
+	seq := m.Sequencer()
+	defer seq.UnRef()
+	for _, f := range files {
+		p := GetIDTimePairs(mst)
+		if err := f.LoadIdTimes(p); err == nil {
+			seq.BatchUpdateCheckTime(p, false)
+		}
+		PutIDTimePairs(p)
+	}
 }
 
 func (mt *mergeTool) getTSSPFiles(ctx *MergeContext) (*TSSPFiles, *TSSPFiles, error) {
@@ -299,6 +318,7 @@ func (mt *mergeTool) mergeSelfStreamMode(ctx *MergeContext) {
 			return
 		}
 		NewHotFileManager().AddAll(mergedFiles.Files())
+		mt.mts.updateSequencerAfterMerge(ctx.mst, mergedFiles.Files())
 		mt.mts.deleteUnorderedFiles(ctx.mst, unordered.Files())
 		mt.stat.Push()
 		success = true
